@@ -73,8 +73,16 @@ package balance
 //@   modifies nothing
 //@   ensures result.Amount != nil && fresh(result.Amount) && big(result.Amount) == a && result.Currency == c   // C02.coin-arith
 
-// string rendering of amounts (loop over digits; no state, no panic: strings only) — assumed
-//@ assume func PrintDecimal
+// string rendering of amounts: VERIFIED to be crash-free for every amount pointer, nil included ((*big.Int).String prints
+// "<nil>" for a nil receiver; Coin.String()/Humanize() format rejected coins - whose Amount may be nil - inside error
+// messages of CheckTx/DeliverTx). No functional claim on the text. A negative decimal count would slice out of range:
+// currencies come from genesis with Decimal >= 0 (environment assumption, listed).
+//@ func PrintDecimal
+//@   safety C18
+//@   assumes decimal >= 0                                                                                  // A-DECIMALS
+//@   modifies nothing
+//@ func removeTrailingZero
+//@   safety C18
 //@   modifies nothing
 
 // ---------------------------------------------------------------- ledger mutators
